@@ -37,14 +37,17 @@ def handle (line : String) : String :=
     | "lites.wwm", _, some [idm, sk, iv, data, block, rspW] =>
       showPy toHex (writeWithMacCmd C3 idm (if sk = [] then none else some ⟨sk, iv⟩) data (beNat block) rspW)
     | "ntag.cmd", _, some [pw] => showPy (fun k => toHex (ntagAuthCmd k)) (ntagKey pw)
-    | "ntag.auth", [_, e], some [pw, _] =>
-      if e.startsWith "e" then
-        match (e.drop 1).toString.toInt? with
-        | some n => showBool (ntagAuthenticate pw (.error (.tagCmd n)))
-        | none => "bad-op"
-      else match parseHex e with
-        | some r => showBool (ntagAuthenticate pw (.ok r))
-        | none => "bad-op"
+    | "ntag.auth", [p, e], _ =>
+      match parseHex p with
+      | none => "bad-op"
+      | some pw =>
+        if e.startsWith "E" then
+          match (e.drop 1).toString.toInt? with
+          | some n => showBool (ntagAuthenticate pw (.error (.tagCmd n)))
+          | none => "bad-op"
+        else match parseHex e with
+          | some r => showBool (ntagAuthenticate pw (.ok r))
+          | none => "bad-op"
     | "ntag.protect", _, some [pw, rp, pf, cfg] =>
       showPy (fun ps => " ".intercalate (ps.map toHex)) (ntagProtectPages pw (rp != [0]) (beNat pf) cfg)
     | "ntag.tag", _, some [pwd, pack, cmd] => "ok " ++ toHex (NtagTag.respond ⟨pwd, pack⟩ cmd)
